@@ -252,6 +252,85 @@ def lemma_spherical_conservative(U):
     U.assume_note("uniform O(h^2) up to the axis uses the parity of smooth spherically symmetric fields at r=0 (analysis, not proved)")
 
 
+# ------------------------------------------------------------------ operator names d_d<axis>[_method], d2_d<axis>2
+def name_parsing_unit(axes):
+    """NumbaBackend.get_operator_info for the derivative name patterns: the factory it returns is make_derivative /
+    make_derivative2 (contracts above) for the axis whose NAME appears in the operator name and the method the suffix
+    names; registered names are answered by the registry, unknown names raise NotImplementedError"""
+    def unit(U):
+        from ..ctx import PyRaise
+        from ..objects import Instance
+        from .common import explore_paths, prem_of
+
+        cases = []
+        for k, ax in enumerate(axes):
+            cases += [(f"d_d{ax}", "make_derivative", k, "central"), (f"d_d{ax}_forward", "make_derivative", k, "forward"),
+                      (f"d_d{ax}_backward", "make_derivative", k, "backward"), (f"d_d{ax}_central", "make_derivative", k, "central"), (f"d2_d{ax}2", "make_derivative2", k, None)]
+
+        def body(it):
+            cls = it.module_attr(it.load_module("pde.backends.numba.backend"), "NumbaBackend")
+            be = Instance(cls, {"name": "numba"})
+            grid = Instance(None, {"axes": list(axes)}, name="grid")
+            registered = Instance(None, {"__operator_info__": True}, name="registered OperatorInfo")
+
+            def base_info(interp, args, kw):
+                if args[2] == "laplace":
+                    return registered
+                raise PyRaise("NotImplementedError", ("not registered",))
+
+            it.contracts[("pde.backends.base", "BackendBase.get_operator_info")] = base_info
+            it.contracts[("pde.backends.numba.backend", "NumbaBackend.get_registered_operators")] = lambda interp, args, kw: set()
+            calls = []
+            it.contracts[("pde.backends.numba.operators.common", "make_derivative")] = lambda interp, args, kw: calls.append(("make_derivative", args, kw)) or "kernel"
+            it.contracts[("pde.backends.numba.operators.common", "make_derivative2")] = lambda interp, args, kw: calls.append(("make_derivative2", args, kw)) or "kernel"
+            it.overrides["OperatorInfo"] = _operator_info_tag()
+            out = []
+            for name, *_ in cases:
+                info = it.call(it.getattr(be, "get_operator_info"), [grid, name], {})
+                n0 = len(calls)
+                it.call(info.attrs["factory"], [grid], {})
+                out.append((info, calls[n0:]))
+            reg = it.call(it.getattr(be, "get_operator_info"), [grid, "laplace"], {})
+            try:
+                it.call(it.getattr(be, "get_operator_info"), [grid, "d_dq_sideways"], {})
+                unknown = "returned"
+            except PyRaise as e:
+                unknown = e.exc_type
+            return out, reg, registered, unknown, grid
+
+        for p, res in enumerate(explore_paths(U, body)):
+            P = prem_of(res.ctx)
+            if res.outcome != "return":
+                U.prove(f"path{p}.returns_normally", P, z3.BoolVal(False), info={"exc": str(res.exc)})
+                continue
+            out, reg, registered, unknown, grid = res.value
+            for (name, fn, k, method), (info, calls) in zip(cases, out):
+                ok = len(calls) == 1 and calls[0][0] == fn and calls[0][1][0] is grid and calls[0][2].get("axis", calls[0][1][1] if len(calls[0][1]) > 1 else None) == k
+                if method is not None:
+                    ok = ok and calls[0][2].get("method") == method
+                ok = ok and info.attrs.get("rank_in") == 0 and info.attrs.get("rank_out") == 0
+                U.prove(f"path{p}.'{name}'=={fn}(axis={k}{'' if method is None else ',' + method})", P, z3.BoolVal(bool(ok)), info={"calls": repr(calls)[:200]})
+            U.prove(f"path{p}.registered_names_are_answered_by_the_registry", P, z3.BoolVal(reg is registered))
+            U.prove(f"path{p}.unknown_names_raise_NotImplementedError", P, z3.BoolVal(unknown in ("NotImplementedError", "ValueError")))
+
+    return unit
+
+
+def _operator_info_tag():
+    """OperatorInfo is a NamedTuple (factory, rank_in, rank_out, name): a plain record; isinstance is membership"""
+    from ..builtins_model import TypeTag
+    from ..objects import Instance
+
+    def make(factory=None, rank_in=None, rank_out=None, name="", **kw):
+        return Instance(None, {"factory": factory, "rank_in": rank_in, "rank_out": rank_out, "name": name, "__operator_info__": True, **kw}, name="OperatorInfo")
+
+    class Tag(TypeTag):
+        def check(self, obj):
+            return isinstance(obj, Instance) and bool(obj.attrs.get("__operator_info__"))
+
+    return Tag("OperatorInfo", make)
+
+
 # ------------------------------------------------------------------ registration coverage
 def registered_operators():
     """(kind, op) pairs registered with @NumbaBackend.register_operator in the four operator files"""
@@ -295,6 +374,8 @@ def _units():
             units.append((f"common.make_derivative2[axes={n},axis={ax}]", derivative_unit(n, ax, None, True)))
     from . import nine_point
     units.extend(nine_point.units_C01())
+    for axes in (("x",), ("x", "y", "z"), ("r", "z")):
+        units.append((f"operator_names[axes={','.join(axes)}]", name_parsing_unit(axes)))
     units.append(("lemma.difference_quotients", lemma_difference_quotients))
     units.append(("lemma.spherical_conservative", lemma_spherical_conservative))
     units.append(("coverage.registered_operators", coverage_unit))
@@ -461,6 +542,5 @@ NOT_COVERED = [
     "spectral Laplacians (use_spectral, off by default; rocket_fft absent)",
     "9-point 2-d Laplacian (corner_weight != 0, non-default): kernel == (1-w) five-point + w diagonal stencil proved for all w, consistency lemma for dx = dy; the accuracy of the interpolated corner points next to non-periodic corners is not part of the claim",
     "scipy/ndimage reference kernels, jax/torch back ends (not installed)",
-    "get_operator_info name parsing for d_d<axis> patterns (bounded native check only)",
     "complex inputs: covered by linearity of the proved stencil (real coefficients act on Re and Im separately), not re-proved",
 ]
